@@ -23,7 +23,7 @@ def PC.waitRec : PC → Option Wid
   | .usReLd r _ | .usReCas r _ _ | .usFinLd r _ | .usFinCas r _ _ | .usWakeSt r _ _ | .usWakeV r _ _ => r.w?
   | .mwRelLd c | .mwRelCas c _ _ | .mwSem c | .mwPdRet c _ | .mwNotify c | .mwLd244 c => c.w
   | .mwWaitLd c | .mwLd255 c => c.w
-  | .mtLd c | .mtCasAcq c _ | .mtCasWW c _ | .mtLdW c _ | .mtLdRc c _ => c.w
+  | .mtLd c | .mtCasAcq c _ | .mtCasWW c _ | .mtLdWk c _ | .mtLdW c _ | .mtLdRc c _ => c.w
   | .mtStRel c _ ok => if ok then none else c.w
   | _ => none
 
@@ -34,7 +34,7 @@ def PC.wmode : PC → Mode
   | .usReLd r _ | .usReCas r _ _ | .usFinLd r _ | .usFinCas r _ _ | .usWakeSt r _ _ | .usWakeV r _ _ => r.wmode
   | .mwRelLd c | .mwRelCas c _ _ | .mwSem c | .mwPdRet c _ | .mwNotify c | .mwLd244 c
   | .mwWaitLd c | .mwLd255 c
-  | .mtLd c | .mtCasAcq c _ | .mtCasWW c _ | .mtLdW c _ | .mtLdRc c _ | .mtStRel c _ _ => c.l
+  | .mtLd c | .mtCasAcq c _ | .mtCasWW c _ | .mtLdWk c _ | .mtLdW c _ | .mtLdRc c _ | .mtStRel c _ _ => c.l
   | _ => .W
 
 /-- The record whose semaphore the thread is waiting on. -/
